@@ -328,6 +328,19 @@ def run_parallel(fn, lines, chunks=NCPU):
     return r
 
 
+WILD = {'n': 0}
+
+
+def align_zone_lines(mo, io):
+    """`zone` answers carry the table sizes read from time_zone::description(), whose content the library calls
+    unspecified: when a tree words it differently the harness prints `ok - - -` and only the success of the load
+    is compared (counted, so that the evidence says how often the structural comparison was lost)"""
+    for k, (a, c) in enumerate(zip(mo, io)):
+        if isinstance(c, str) and c.startswith('ok - - -') and isinstance(a, str) and a.startswith('ok '):
+            mo[k] = c
+            WILD['n'] += 1
+
+
 def canon(out):
     """strip the '@file:line(what)' location from an implementation UB line"""
     if out.startswith('UB'):
@@ -512,6 +525,9 @@ class Check:
                     'correspondence run was scaled up to the thorough sizes' % '; '.join(self.degraded))
             self.assumptions.append(note)
             print('NOTE: property=%s %s%s' % (self.pid, note, '' if rc else ': model and implementation still agree'))
+        if WILD['n']:
+            note = ('time_zone::description() is not in the form the harness reads (%d loads): table sizes and footer of loaded zones were not compared, only the success of the load' % WILD['n'])
+            self.assumptions.append(note); print('NOTE: property=%s %s' % (self.pid, note))
         for l in out_lines: print(l)
         cov = dict(self.cov)
         if level == 'proof' and cov.get('obligations', 0) < 1:
